@@ -569,4 +569,73 @@ def inproc : List ItemSpec → List Nat × Option Nat
     | some e => (x.outs, some e)
     | none => let r := inproc xs; (x.outs ++ r.1, r.2)
 
+/-! ### phase 5: "no step of the code is possible" as an executable predicate (fault extension) -/
+
+/-- the steps of the code (every action but the caller giving up), for the lineages `0 … n-1` -/
+def codeActions (c : Cfg) : List Action :=
+  [.loadTake, .loadPut, .loadFinish, .mEvent, .cGet, .drainIn, .drainOut, .mDone] ++
+  (List.range c.n).flatMap (fun w => [.wBegin w, .wGet w, .wPut w, .wRaise w, .wRetire w, .wCallback w])
+
+/-- no step of the code is enabled (a further crash or the caller giving up do not count) -/
+def stuckF (c : Cfg) (s : FState) : Bool := (codeActions c).all (fun a => !enabledF c s (.base a))
+
+
+/-! ### phase 5: crash × `read_wait` — a process dies while it waits for the caller (its key written, its event not yet set)
+
+The process is gone with an exit code ≠ 0; what it reported through the pipe before it began to wait (its exception, `poisoned`) has
+arrived, so the callback records the exception as usual, but — `worker.exitcode != 0` — sets `_main_err` and the event, never
+replaces the lineage, decrements `_n_procs` and writes the out pill at zero: for the queues and counters exactly the callback of a
+POISONED lineage (`exited true e`).  The key stays in the out-queue; when the caller reads it, `.set()` goes to an event nobody
+waits on (in the layer: `cKey` filters a lineage out of `keyWait` that is no longer there).  Layered over `RState` in the style of
+`FState`. -/
+
+
+structure RFState where
+  r        : RState
+  mainErr  : Bool          -- `call._main_err`
+  crashedK : List Nat      -- lineages whose process died while it waited for the caller, callback not yet run
+  budget   : Nat
+  skipped  : Bool
+deriving Repr, DecidableEq
+
+inductive ActionRF where
+  | r (a : ActionR)
+  | wCrashKey (w : Nat)    -- the process of lineage `w` dies while it waits (its key written, its event not yet set)
+deriving Repr, DecidableEq
+
+def initRF (c : Cfg) (faults : Nat) : RFState :=
+  { r := initR c, mainErr := false, crashedK := [], budget := faults, skipped := false }
+
+def enabledRF (c : Cfg) (s : RFState) : ActionRF → Bool
+  | .r (.base (.wBegin w)) => enabledR c s.r (.base (.wBegin w)) && (!s.skipped || w == 0)
+  | .r a => enabledR c s.r a
+  | .wCrashKey w => decide (0 < s.budget) && s.r.keyWait.contains w &&
+      (match s.r.b.ws[w]? with | some (.exited _ _) => true | _ => false)
+
+def stepRF (c : Cfg) (rw : Bool) (s : RFState) : ActionRF → RFState
+  | .r (.base (.wCallback w)) =>
+      if s.crashedK.contains w then
+        { s with r := { stepR c rw s.r (.base (.wCallback w)) with b := { (stepR c rw s.r (.base (.wCallback w))).b with event := true } },
+                 mainErr := true, crashedK := s.crashedK.erase w }
+      else { s with r := stepR c rw s.r (.base (.wCallback w)) }
+  | .r (.base .mEvent) =>
+      if s.mainErr then { s with r := { s.r with b := { s.r.b with main := .fin } }, skipped := true }
+      else { s with r := stepR c rw s.r (.base .mEvent) }
+  | .r a => { s with r := stepR c rw s.r a }
+  | .wCrashKey w =>
+      match s.r.b.ws[w]? with
+      | some (.exited _ e) =>
+          { s with r := { s.r with b := { s.r.b with ws := s.r.b.ws.set w (.exited true e) }, keyWait := s.r.keyWait.filter (· != w) },
+                   crashedK := w :: s.crashedK, budget := s.budget - 1 }
+      | _ => s
+
+def runTraceRF (c : Cfg) (rw : Bool) : RFState → List ActionRF → Option RFState
+  | s, [] => some s
+  | s, a :: as => if enabledRF c s a then runTraceRF c rw (stepRF c rw s a) as else none
+
+inductive ReachableRF (c : Cfg) (rw : Bool) (faults : Nat) : RFState → Prop where
+  | init : ReachableRF c rw faults (initRF c faults)
+  | step {s a} : ReachableRF c rw faults s → enabledRF c s a = true → ReachableRF c rw faults (stepRF c rw s a)
+
+
 end Coba.C08
